@@ -270,3 +270,4 @@ def run(ctx):
     c05.check_witness(ctx, "C13.3")
     check_builders(ctx)
     c05.check_writer(ctx, "C13.3")
+    c05.check_reader(ctx, "C13.3")
